@@ -10,6 +10,11 @@
 //! polls where each poll's answer is one of {lost, the real server's answer, a
 //! harness-built authenticated answer carrying k = 0..=9 uniquely tagged cookies of a
 //! size class}. Every emitted request is parsed at byte level by the harness.
+//! A further sweep answers the first polls with every KIND of authenticated datagram that
+//! matches the request (time answer, RATE / unknown / NTS-NAK kiss, stratum 17, client mode,
+//! each carrying cookies), delivered once, twice in a row, or again after the next
+//! request, and then runs 10 normally answered polls so that every cookie held is sent and
+//! the at-most-once oracle on request cookies can fire.
 //!
 //! Oracle (from the statement): each cookie is sent in at most one request; the cookie
 //! sent is the oldest one held; after every event the stash holds exactly the newest
@@ -204,31 +209,80 @@ fn part_a(ctx: &Ctx) {
 }
 
 // ------------------------------------------------------------------------------ part B
+/// What arrives in answer to a poll.
 #[derive(Clone, Copy, PartialEq, Eq, Debug)]
-enum Ans {
+enum Kind {
     /// no answer arrives
     Lost,
     /// whatever the real server answers
     Server,
-    /// authenticated answer built by the harness: k tagged cookies of `size` bytes
-    Harness(usize, usize),
+    /// harness-built authenticated TIME answer (stratum 2, server mode)
+    Time,
+    /// harness-built authenticated answers that are NOT time answers but match the request:
+    /// RATE kiss, unknown kiss code, NTS NAK kiss, stratum 17, client/request mode
+    KissRate,
+    KissUnknown,
+    KissNtsn,
+    Stratum17,
+    WrongMode,
 }
-fn ans_str(a: &Ans) -> String {
-    match a {
-        Ans::Lost => "L".into(),
-        Ans::Server => "S".into(),
-        Ans::Harness(k, s) => format!("H{k}x{s}"),
+/// Is the datagram delivered a second time?
+#[derive(Clone, Copy, PartialEq, Eq, Debug)]
+enum Dup {
+    No,
+    /// immediately after the first delivery (request still pending unless consumed)
+    Now,
+    /// after the next poll has been sent (the request it answers is no longer pending)
+    Late,
+}
+/// One poll: the answer carries `k` uniquely tagged cookies of `size` bytes (harness kinds).
+#[derive(Clone, Copy, PartialEq, Eq, Debug)]
+struct Step {
+    kind: Kind,
+    k: usize,
+    size: usize,
+    dup: Dup,
+}
+const KINDS: [(Kind, &str); 8] = [
+    (Kind::Lost, "L"),
+    (Kind::Server, "S"),
+    (Kind::Time, "H"),
+    (Kind::KissRate, "KR"),
+    (Kind::KissUnknown, "KX"),
+    (Kind::KissNtsn, "KN"),
+    (Kind::Stratum17, "ST"),
+    (Kind::WrongMode, "MD"),
+];
+fn step_str(s: &Step) -> String {
+    let name = KINDS.iter().find(|(k, _)| *k == s.kind).unwrap().1;
+    let body = match s.kind {
+        Kind::Lost | Kind::Server => name.to_string(),
+        _ => format!("{name}{}x{}", s.k, s.size),
+    };
+    match s.dup {
+        Dup::No => body,
+        Dup::Now => format!("{body}+d"),
+        Dup::Late => format!("{body}+l"),
     }
 }
-fn parse_ans(s: &str) -> Option<Ans> {
-    match s {
-        "L" => Some(Ans::Lost),
-        "S" => Some(Ans::Server),
-        _ => {
-            let (k, z) = s.strip_prefix('H')?.split_once('x')?;
-            Some(Ans::Harness(k.parse().ok()?, z.parse().ok()?))
-        }
+fn parse_step(t: &str) -> Option<Step> {
+    let (body, dup) = if let Some(b) = t.strip_suffix("+d") {
+        (b, Dup::Now)
+    } else if let Some(b) = t.strip_suffix("+l") {
+        (b, Dup::Late)
+    } else {
+        (t, Dup::No)
+    };
+    if body == "L" || body == "S" {
+        return Some(Step { kind: if body == "L" { Kind::Lost } else { Kind::Server }, k: 0, size: 0, dup });
     }
+    let n = body.find(|c: char| c.is_ascii_digit())?;
+    let kind = KINDS.iter().find(|(_, s)| *s == &body[..n])?.0;
+    let (k, size) = body[n..].split_once('x')?;
+    Some(Step { kind, k: k.parse().ok()?, size: size.parse().ok()?, dup })
+}
+fn steps_str(s: &[Step]) -> String {
+    s.iter().map(step_str).collect::<Vec<_>>().join(",")
 }
 
 struct ReqView {
@@ -278,214 +332,302 @@ struct BOut {
     accepted: u64,
     evictions: u64,
     transitions: u64,
+    /// deliveries of authenticated non-time answers / duplicates whose cookies were (not) stored
+    extra_stored: u64,
+    extra_not_stored: u64,
+    dup_deliveries: u64,
 }
 
-async fn run_b(cfg: Cfg, fill: usize, seq: &[Ans], caps: Option<&Mutex<CapTable>>) -> BOut {
+fn fifo_push(before: &[Vec<u8>], add: &[Vec<u8>]) -> (Vec<Vec<u8>>, u64) {
+    let mut v = before.to_vec();
+    let mut ev = 0;
+    for c in add {
+        v.push(c.clone());
+        if v.len() > 8 {
+            v.remove(0);
+            ev += 1;
+        }
+    }
+    (v, ev)
+}
+
+fn short(cs: &[Vec<u8>]) -> Vec<String> {
+    cs.iter().map(|c| common::hex(&c[..c.len().min(8)])).collect()
+}
+
+/// Build the datagram for a harness answer kind; returns it with the cookies it carries
+/// (as the client would store them).
+fn harness_answer(rig: &Rig, x: &Exchange, poll_byte: u8, step: &Step, tag: &mut u64) -> (Vec<u8>, Vec<Vec<u8>>) {
+    let v5 = rig.cfg.v5();
+    let uid = x.uid.unwrap_or([0; 32]);
+    // header fields per kind: (mode, stratum, poll, v5 flags, v4 refid)
+    let (mode, stratum, poll, flags, refid): (u8, u8, u8, u8, [u8; 4]) = match step.kind {
+        Kind::Time => (4, 2, poll_byte, 1, *b"GPS\0"),
+        Kind::KissRate => (4, 0, poll_byte.wrapping_add(1), 0, *b"RATE"),
+        Kind::KissUnknown => (4, 0, 0, 0, *b"XXXX"),
+        Kind::KissNtsn => (4, 0, 0, 4, *b"NTSN"),
+        Kind::Stratum17 => (4, 17, poll_byte, 1, *b"GPS\0"),
+        Kind::WrongMode => (3, 2, poll_byte, 1, *b"GPS\0"),
+        Kind::Lost | Kind::Server => unreachable!(),
+    };
+    let mut p = if v5 {
+        let mut h = hdr5(0, mode, stratum, poll, flags, [9; 8], x.id8);
+        h.extend(ef5(T_UID, &uid));
+        h.extend(ef5(T_DRAFT, DRAFT));
+        h
+    } else {
+        let mut h = hdr4(0, 4, mode, stratum, poll, refid, [0; 8], x.id8);
+        h.extend(ef4(T_UID, &uid, 16));
+        h
+    };
+    let mut pt = Vec::new();
+    let mut cookies = Vec::new();
+    for _ in 0..step.k {
+        *tag += 1;
+        let c = tagged(*tag, step.size);
+        pt.extend(ef(v5, T_COOKIE, &c, 0));
+        // v4 framing pads the body to a multiple of 4: the padded body is the cookie
+        let mut stored = c.clone();
+        if !v5 {
+            stored.resize(pad4(stored.len()), 0);
+        }
+        cookies.push(stored);
+    }
+    let a = authenticator(&*rig.s2c, &p, &pt);
+    p.extend(a);
+    (p, cookies)
+}
+
+/// `steps` are the enumerated polls; afterwards `drain` further polls are each answered by a
+/// harness time answer with one fresh cookie, so that every cookie held gets sent.
+async fn run_b(cfg: Cfg, fill: usize, steps: &[Step], drain: usize, caps: Option<&Mutex<CapTable>>) -> BOut {
     let v5 = cfg.v5();
     let mut rig = Rig::nts(cfg, fill);
-    let mut model: VecDeque<Vec<u8>> = rig.key().cookies.unwrap_or_default().into();
     let mut sent: HashSet<Vec<u8>> = HashSet::new();
-    let mut out = BOut { violations: vec![], sends: 0, resets_empty: 0, resets_other: 0, accepted: 0, evictions: 0, transitions: 0 };
+    let mut out = BOut { violations: vec![], sends: 0, resets_empty: 0, resets_other: 0, accepted: 0, evictions: 0, transitions: 0, extra_stored: 0, extra_not_stored: 0, dup_deliveries: 0 };
     let mut tag = 1u64 << 40;
-    let trace = format!("B|{}|{fill}|{}", cfg.name(), seq.iter().map(ans_str).collect::<Vec<_>>().join(","));
+    let trace = format!("B|{}|{fill}|{drain}|{}", cfg.name(), steps_str(steps));
     macro_rules! fail {
         ($class:expr, $($arg:tt)*) => { out.violations.push(($class.to_string(), format!($($arg)*))) };
     }
-    for (step, ans) in seq.iter().enumerate() {
+    let drain_step = Step { kind: Kind::Time, k: 1, size: 104, dup: Dup::No };
+    let total = steps.len() + drain;
+    // datagram to deliver again after the next request went out
+    let mut late: Option<(Vec<u8>, Vec<Vec<u8>>)> = None;
+    'polls: for i in 0..total {
+        let step = if i < steps.len() { steps[i] } else { drain_step };
         out.transitions += 1;
+        let held: Vec<Vec<u8>> = rig.key().cookies.unwrap_or_default();
         let res = rig.timer();
         let req = match res {
             Out::Send(b, _) => b,
             Out::Reset => {
-                if model.is_empty() {
+                if held.is_empty() {
                     out.resets_empty += 1;
                 } else {
                     let k = rig.key();
                     if k.reach == 0 && k.tries >= 3 {
                         out.resets_other += 1;
                     } else {
-                        fail!("C13:reset-with-cookies", "poll {step}: Reset although {} cookies are held and the source is reachable", model.len());
+                        fail!("C13:reset-with-cookies", "poll {i}: Reset although {} cookies are held and the source is reachable", held.len());
                     }
                 }
                 break;
             }
             Out::Panic(e) => {
-                fail!("C13:panic", "poll {step}: handle_timer panicked: {e}");
+                fail!("C13:panic", "poll {i}: handle_timer panicked: {e}");
                 break;
             }
             o => {
-                fail!("C13:request-malformed", "poll {step}: unexpected timer result {o:?}");
+                fail!("C13:request-malformed", "poll {i}: unexpected timer result {o:?}");
                 break;
             }
         };
         out.sends += 1;
-        if model.is_empty() {
-            fail!("C13:send-without-cookie", "poll {step}: a request was sent although no cookie is held");
+        if held.is_empty() {
+            fail!("C13:send-without-cookie", "poll {i}: a request was sent although no cookie is held");
             break;
         }
         let v = match view(&rig, &req) {
             Ok(v) => v,
             Err(e) => {
-                fail!("C13:request-malformed", "poll {step}: {e}");
+                fail!("C13:request-malformed", "poll {i}: {e}");
                 break;
             }
         };
-        let oldest = model.pop_front().unwrap();
+        let oldest = &held[0];
         let c = oldest.len();
         // the cookie field carries the cookie followed by zero padding only
         let carried_ok = v.cookie.len() >= c && v.cookie[..c] == oldest[..] && v.cookie[c..].iter().all(|b| *b == 0) && v.cookie.len() < c + 16;
         if !carried_ok {
-            let pos = model.iter().position(|m| v.cookie.len() >= m.len() && v.cookie[..m.len()] == m[..]);
+            let pos = held.iter().position(|m| v.cookie.len() >= m.len() && v.cookie[..m.len()] == m[..]);
             fail!(
                 "C13:not-oldest-first",
-                "poll {step}: request carries cookie {}.. which is {} (oldest held is {}..)",
+                "poll {i}: request carries cookie {}.. which is {} (oldest held is {}..)",
                 common::hex(&v.cookie[..v.cookie.len().min(8)]),
                 match pos {
-                    Some(p) => format!("number {} in the queue", p + 2),
+                    Some(p) => format!("number {} in the queue", p + 1),
                     None => "not a held cookie".to_string(),
                 },
                 common::hex(&oldest[..oldest.len().min(8)])
             );
         }
         if !sent.insert(v.cookie[..c.min(v.cookie.len())].to_vec()) {
-            fail!("C13:cookie-reused", "poll {step}: cookie {}.. was already sent in an earlier request", common::hex(&v.cookie[..v.cookie.len().min(8)]));
+            fail!("C13:cookie-reused", "poll {i}: cookie {}.. was already sent in an earlier request", common::hex(&v.cookie[..v.cookie.len().min(8)]));
         }
-        let missing = 8 - model.len();
+        let after_take: Vec<Vec<u8>> = rig.key().cookies.unwrap_or_default();
+        if after_take[..] != held[1..] {
+            fail!("C13:stash-contents", "poll {i}: after taking the oldest cookie the stash holds {:?}, expected {:?}", short(&after_take), short(&held[1..]));
+            break;
+        }
+        let missing = 8 - after_take.len();
         let requested = v.placeholders.len() + 1;
         if requested > missing {
-            fail!("C13:request-count", "poll {step}: asks for {requested} new cookies but only {missing} are missing ({} held after taking one)", model.len());
+            fail!("C13:request-count", "poll {i}: asks for {requested} new cookies but only {missing} are missing ({} held after taking one)", after_take.len());
         }
         if v.placeholders.iter().any(|p| *p != v.cookie_body_len) {
-            fail!("C13:request-malformed", "poll {step}: placeholder bodies {:?} differ from the cookie body length {}", v.placeholders, v.cookie_body_len);
+            fail!("C13:request-malformed", "poll {i}: placeholder bodies {:?} differ from the cookie body length {}", v.placeholders, v.cookie_body_len);
         }
         if v.len > 1024 {
-            fail!("C13:request-malformed", "poll {step}: request is {} bytes", v.len);
+            fail!("C13:request-malformed", "poll {i}: request is {} bytes", v.len);
         }
         if requested < missing {
             let full = v.len + (missing - requested) * v.slot;
             if full <= 512 {
-                fail!("C13:request-count", "poll {step}: asks for {requested} of {missing} missing cookies although the full request would only be {full} bytes (cookie {c} B)");
+                fail!("C13:request-count", "poll {i}: asks for {requested} of {missing} missing cookies although the full request would only be {full} bytes (cookie {c} B)");
             }
         }
         if let Some(t) = caps {
             t.lock().unwrap().entry((v5, c)).or_default().entry((missing, requested)).or_insert((trace.clone(), v.len, v.slot));
         }
-        // ---- the answer
+        // ---- deliveries for this poll: [late duplicate of the previous datagram], the answer, [duplicate]
         let x = rig.exchanges.last().cloned().unwrap();
-        let datagram: Option<(Vec<u8>, Vec<Vec<u8>>)> = match ans {
-            Ans::Lost => None,
-            Ans::Server => x.genuine.clone().map(|g| {
+        let answer: Option<(Vec<u8>, Vec<Vec<u8>>)> = match step.kind {
+            Kind::Lost => None,
+            Kind::Server => x.genuine.clone().map(|g| {
                 // learn the delivered cookies with the harness-side walker
                 let cookies = open_all(&*rig.s2c, &g).into_iter().next().and_then(|(_, pt)| plaintext_cookies(&pt)).unwrap_or_default();
                 (g, cookies)
             }),
-            Ans::Harness(k, size) => {
-                let mut p = if v5 {
-                    let mut h = hdr5(0, 4, 2, req[2], 1, [9; 8], x.id8);
-                    h.extend(ef5(T_UID, &x.uid.unwrap_or([0; 32])));
-                    h.extend(ef5(T_DRAFT, DRAFT));
-                    h
-                } else {
-                    let mut h = hdr4(0, 4, 4, 2, req[2], *b"GPS\0", [0; 8], x.id8);
-                    h.extend(ef4(T_UID, &x.uid.unwrap_or([0; 32]), 16));
-                    h
-                };
-                let mut pt = Vec::new();
-                let mut cookies = Vec::new();
-                for _ in 0..*k {
-                    tag += 1;
-                    let c = tagged(tag, *size);
-                    pt.extend(ef(v5, T_COOKIE, &c, 0));
-                    // v4 framing pads the body to a multiple of 4: the padded body is the cookie
-                    let mut stored = c.clone();
-                    if !v5 {
-                        stored.resize(pad4(stored.len()), 0);
-                    }
-                    cookies.push(stored);
-                }
-                let a = authenticator(&*rig.s2c, &p, &pt);
-                p.extend(a);
-                Some((p, cookies))
-            }
+            _ => Some(harness_answer(&rig, &x, req[2], &step, &mut tag)),
         };
-        if let Some((d, cookies)) = datagram {
+        let mut deliveries: Vec<(&str, Vec<u8>, Vec<Vec<u8>>)> = Vec::new();
+        if let Some((d, cs)) = late.take() {
+            deliveries.push(("late duplicate", d, cs));
+        }
+        if let Some((d, cs)) = &answer {
+            deliveries.push(("answer", d.clone(), cs.clone()));
+            match step.dup {
+                Dup::Now => deliveries.push(("duplicate", d.clone(), cs.clone())),
+                Dup::Late => late = Some((d.clone(), cs.clone())),
+                Dup::No => {}
+            }
+        }
+        for (what, d, cookies) in deliveries {
             out.transitions += 1;
+            let before: Vec<Vec<u8>> = rig.key().cookies.unwrap_or_default();
             let n0 = rig.log_len();
             let acts = rig.incoming(&d);
             let accepted = rig.log_from(n0).iter().any(|l| l.starts_with("meas"));
+            let after: Vec<Vec<u8>> = rig.key().cookies.unwrap_or_default();
+            let (pushed, ev) = fifo_push(&before, &cookies);
+            if what != "answer" {
+                out.dup_deliveries += 1;
+            }
             if accepted {
+                // an accepted time answer: its cookies are the newest ones and must be kept
                 out.accepted += 1;
-                for c in cookies {
-                    model.push_back(c);
-                    if model.len() > 8 {
-                        model.pop_front();
-                        out.evictions += 1;
-                    }
+                out.evictions += ev;
+                if after != pushed {
+                    fail!("C13:stash-contents", "poll {i} {what} {}: stash holds {:?}, expected the newest <= 8 in arrival order {:?}", step_str(&step), short(&after), short(&pushed));
+                    break 'polls;
                 }
-            } else if matches!(ans, Ans::Harness(..)) {
-                fail!("C13:machinery", "poll {step}: harness-built authenticated answer was not accepted ({acts:?})");
-                break;
+            } else {
+                // not a time answer (kiss, bad stratum/mode, duplicate, NAK): the statement neither
+                // demands nor forbids taking its cookies once; what is kept must still be a FIFO
+                // of the newest <= 8 in arrival order
+                if after == pushed && !cookies.is_empty() {
+                    out.extra_stored += 1;
+                    out.evictions += ev;
+                    if std::env::var("GC_DEBUG").is_ok() { std::eprintln!("DBG stored {trace} poll {i} {what} acts={acts:?}"); }
+                } else if after == before {
+                    out.extra_not_stored += 1;
+                } else {
+                    fail!("C13:stash-contents", "poll {i} {what} {}: stash holds {:?}, expected either unchanged {:?} or all delivered cookies appended {:?}", step_str(&step), short(&after), short(&before), short(&pushed));
+                    break 'polls;
+                }
+                if what == "answer" && step.kind == Kind::Time {
+                    fail!("C13:machinery", "poll {i}: harness-built authenticated time answer was not accepted ({acts:?})");
+                    break 'polls;
+                }
+            }
+            if acts.iter().any(|a| a == "Demobilize" || a == "Reset") {
+                break 'polls;
             }
         }
         let k = rig.key();
-        let held = k.cookies.clone().unwrap_or_default();
-        if held != model.iter().cloned().collect::<Vec<_>>() {
-            fail!(
-                "C13:stash-contents",
-                "after poll {step} + {}: stash holds {:?}, expected the newest <= 8 undelivered cookies {:?} (first 8 bytes each)",
-                ans_str(ans),
-                held.iter().map(|c| common::hex(&c[..c.len().min(8)])).collect::<Vec<_>>(),
-                model.iter().map(|c| common::hex(&c[..c.len().min(8)])).collect::<Vec<_>>()
-            );
-            break;
+        let now_held = k.cookies.clone().unwrap_or_default();
+        if now_held.len() > 8 {
+            fail!("C13:stash-contents", "after poll {i}: {} cookies held", now_held.len());
         }
         let obs = rig.src.observe("x".into(), crate::ClockId(7)).nts_cookies;
-        if obs != Some(model.len()) {
-            fail!("C13:stash-contents", "after poll {step}: observable nts_cookies = {obs:?}, {} held", model.len());
+        if obs != Some(now_held.len()) {
+            fail!("C13:stash-contents", "after poll {i}: observable nts_cookies = {obs:?}, {} held", now_held.len());
         }
     }
     out
 }
 
-fn sequences(choices: &[Ans], polls: usize) -> u64 {
-    common::pow(choices.len(), polls)
-}
-
 fn part_b(ctx: &Ctx) {
     let quick = ctx.quick();
     let caps: Mutex<CapTable> = Mutex::new(BTreeMap::new());
-    let mut plans: Vec<(Cfg, Vec<Ans>, usize, &str)> = Vec::new();
-    let base: Vec<Ans> = [Ans::Lost, Ans::Server].into_iter().chain((0..=9).map(|k| Ans::Harness(k, 104))).collect();
-    let sized: Vec<Ans> = [Ans::Lost, Ans::Server]
+    let st = |kind, k, size, dup| Step { kind, k, size, dup };
+    // (config, choices per poll, enumerated polls, drain polls, label)
+    let mut plans: Vec<(Cfg, Vec<Step>, usize, usize, &str)> = Vec::new();
+    let base: Vec<Step> = [st(Kind::Lost, 0, 0, Dup::No), st(Kind::Server, 0, 0, Dup::No)].into_iter().chain((0..=9).map(|k| st(Kind::Time, k, 104, Dup::No))).collect();
+    let sized: Vec<Step> = [st(Kind::Lost, 0, 0, Dup::No), st(Kind::Server, 0, 0, Dup::No)]
         .into_iter()
-        .chain([16usize, 40, 90, 168, 300, 700].into_iter().flat_map(|s| [1usize, 3, 8, 9].into_iter().map(move |k| Ans::Harness(k, s))))
+        .chain([16usize, 40, 90, 168, 300, 700].into_iter().flat_map(|s| [1usize, 3, 8, 9].into_iter().map(move |k| st(Kind::Time, k, s, Dup::No))))
         .collect();
-    let (p_main, p_512, p_sized) = if quick { (3, 2, 2) } else { (5, 4, 3) };
-    for pv in [ProtocolVersion::V4, ProtocolVersion::V5] {
-        plans.push((Cfg { pv, k512: false }, base.clone(), p_main, "main"));
-        plans.push((Cfg { pv, k512: true }, base.clone(), p_512, "k512"));
-        plans.push((Cfg { pv, k512: false }, sized.clone(), p_sized, "sizes"));
+    // answers of every kind, each delivered once / twice in a row / again after the next request
+    let mut kinds: Vec<Step> = vec![st(Kind::Lost, 0, 0, Dup::No)];
+    for dup in [Dup::No, Dup::Now, Dup::Late] {
+        kinds.push(st(Kind::Server, 0, 0, dup));
+        for k in [1usize, 3, 9] {
+            kinds.push(st(Kind::Time, k, 104, dup));
+        }
+        for kind in [Kind::KissRate, Kind::KissUnknown, Kind::Stratum17, Kind::WrongMode] {
+            for k in [1usize, 3] {
+                kinds.push(st(kind, k, 104, dup));
+            }
+        }
+        kinds.push(st(Kind::KissNtsn, 1, 104, dup));
     }
-    for (cfg, choices, polls, label) in &plans {
-        let per_fill = sequences(choices, *polls);
+    let (p_main, p_512, p_sized, p_kinds) = if quick { (3, 2, 2, 2) } else { (5, 4, 3, 3) };
+    for pv in [ProtocolVersion::V4, ProtocolVersion::V5] {
+        plans.push((Cfg { pv, k512: false }, base.clone(), p_main, 0, "main"));
+        plans.push((Cfg { pv, k512: true }, base.clone(), p_512, 0, "k512"));
+        plans.push((Cfg { pv, k512: false }, sized.clone(), p_sized, 0, "sizes"));
+        plans.push((Cfg { pv, k512: false }, kinds.clone(), p_kinds, 10, "kinds+dup+drain10"));
+    }
+    ctx.set("b_answer_kinds_with_dup", kinds.len() as u64);
+    for (cfg, choices, polls, drain, label) in &plans {
+        let per_fill = common::pow(choices.len(), *polls);
         let total = per_fill * 8;
-        let stats = Mutex::new((0u64, 0u64, 0u64, 0u64, 0u64, 0u64));
+        let stats = Mutex::new([0u64; 9]);
         common::par_for(total, 64, |i| {
             let fill = (i / per_fill) as usize + 1;
             let w = common::word_of(i % per_fill, choices.len(), *polls);
-            let seq: Vec<Ans> = w.iter().map(|j| choices[*j]).collect();
-            let out = super::block_on_paused(run_b(*cfg, fill, &seq, Some(&caps)));
-            let trace = format!("B|{}|{fill}|{}", cfg.name(), seq.iter().map(ans_str).collect::<Vec<_>>().join(","));
+            let seq: Vec<Step> = w.iter().map(|j| choices[*j]).collect();
+            let out = super::block_on_paused(run_b(*cfg, fill, &seq, *drain, Some(&caps)));
+            let trace = format!("B|{}|{fill}|{drain}|{}", cfg.name(), steps_str(&seq));
             for (class, what) in &out.violations {
                 ctx.violation(class, format!("[{} fill {fill}] {what}", cfg.name()), trace.clone());
             }
             let mut s = stats.lock().unwrap();
-            s.0 += out.sends;
-            s.1 += out.resets_empty;
-            s.2 += out.resets_other;
-            s.3 += out.accepted;
-            s.4 += out.evictions;
-            s.5 += out.transitions;
+            for (a, b) in s.iter_mut().zip([out.sends, out.resets_empty, out.resets_other, out.accepted, out.evictions, out.transitions, out.extra_stored, out.extra_not_stored, out.dup_deliveries]) {
+                *a += b;
+            }
             drop(s);
             if out.accepted > 0 {
                 ctx.distinct(common::hash_of(&trace));
@@ -496,13 +638,16 @@ fn part_b(ctx: &Ctx) {
         });
         let s = stats.lock().unwrap();
         ctx.add("evaluations", total);
-        ctx.add("transitions", s.5);
+        ctx.add("transitions", s[5]);
         ctx.add("b_histories", total);
-        ctx.add("b_requests_parsed", s.0);
-        ctx.add("b_reset_stash_empty", s.1);
-        ctx.add("b_reset_unreachable", s.2);
-        ctx.add("b_answers_accepted", s.3);
-        ctx.add("b_cookies_evicted_over_8", s.4);
+        ctx.add("b_requests_parsed", s[0]);
+        ctx.add("b_reset_stash_empty", s[1]);
+        ctx.add("b_reset_unreachable", s[2]);
+        ctx.add("b_answers_accepted", s[3]);
+        ctx.add("b_cookies_evicted_over_8", s[4]);
+        ctx.add("b_nontime_or_dup_cookies_stored", s[6]);
+        ctx.add("b_nontime_or_dup_cookies_not_stored", s[7]);
+        ctx.add("b_duplicate_deliveries", s[8]);
         ctx.add(&format!("b_histories.{}.{label}", cfg.name()), total);
     }
     // ---- structural check of the size cap: requested == min(missing, cap(version, cookie length))
@@ -555,14 +700,17 @@ fn replay(ctx: &Ctx, trace: &str) -> String {
             }
             format!("ring={ring:?} discrepancy={:?}", bad.map(|b| b.0))
         }
-        ["B", cfg, fill, seq] => {
-            let (Some(cfg), Ok(fill)) = (Cfg::parse(cfg), fill.parse::<usize>()) else { return "bad trace".into() };
-            let Some(seq) = seq.split(',').filter(|s| !s.is_empty()).map(parse_ans).collect::<Option<Vec<_>>>() else { return "bad trace".into() };
-            let out = super::block_on_paused(run_b(cfg, fill, &seq, None));
+        ["B", cfg, fill, drain, seq] => {
+            let (Some(cfg), Ok(fill), Ok(drain)) = (Cfg::parse(cfg), fill.parse::<usize>(), drain.parse::<usize>()) else { return "bad trace".into() };
+            let Some(seq) = seq.split(',').filter(|s| !s.is_empty()).map(parse_step).collect::<Option<Vec<_>>>() else { return "bad trace".into() };
+            let out = super::block_on_paused(run_b(cfg, fill, &seq, drain, None));
             for (class, what) in &out.violations {
                 ctx.violation(class, what.clone(), trace.to_string());
             }
-            format!("sends={} accepted={} evicted={} violations={:?}", out.sends, out.accepted, out.evictions, out.violations)
+            format!(
+                "sends={} accepted={} evicted={} nontime_or_dup_stored={} not_stored={} violations={:?}",
+                out.sends, out.accepted, out.evictions, out.extra_stored, out.extra_not_stored, out.violations
+            )
         }
         _ => "bad trace".into(),
     }
@@ -582,11 +730,15 @@ fn check() {
          sequence over {get, store} up to length 14 (quick) / 18 and over {get, store 0 B, store 9 B, store 1024 B} up to \
          length 7 / 10; B: NTS source (v4/v5, 256/512-bit keys) with initial fill 1..=8 x every sequence of 3 (quick) / 5 \
          polls (2 / 4 for 512-bit keys, 2 / 3 for the size sweep) whose answers range over {lost, real server's answer, harness-built \
-         authenticated answer with k=0..=9 tagged cookies of 104 B; size sweep: k in {1,3,8,9} x {16,40,90,168,300,700} B}. \
+         authenticated answer with k=0..=9 tagged cookies of 104 B; size sweep: k in {1,3,8,9} x {16,40,90,168,300,700} B}; \
+         kinds sweep: 2 (quick) / 3 polls over 43 choices = {lost} + {real server, time answer k in {1,3,9}, authenticated RATE / \
+         unknown kiss / stratum 17 / client-mode answer carrying k in {1,3} cookies, authenticated NTS NAK with 1 cookie} x {delivered \
+         once, twice in a row, again after the next request}, followed by 10 normally answered polls so every held cookie is sent. \
          distinct non-trivial = A2 sequence that both overflows the ring and reads from an empty stash, or B history with at \
          least one accepted answer.",
     );
     ctx.assume("'limited only by packet size' is read as: requested = min(missing, cap) with cap a non-increasing function of the cookie length per protocol version, which must not reduce the count while the full request would be <= 512 bytes; the concrete (conservative) cap values are reported in the evidence, not judged");
+    ctx.assume("cookies carried by authenticated answers that are not time answers (kiss codes, stratum > 16, wrong mode) or by duplicates may or may not be taken: the statement judges only single use, order and capacity, so after such a delivery the stash must be unchanged or have all delivered cookies appended in order");
     ctx.assume("harness-built answers are authenticated with the crate's Cipher::encrypt under the session S2C key");
     part_a(&ctx);
     part_b(&ctx);
